@@ -196,6 +196,41 @@ def gen(ctx):
                     mask = 0 if sym == 'rm' else r.choice(symgen.masks(sym))
                     dec.append('%s.dec %s' % (sym, refqr.to_image_str(build(sym, ver, level, mask, bits))))
                     meta.append((sym, ver, level, mask))
+    # deterministic corpus 2: the END of the data. A valid segment list leaving exactly k spare bits (k = 0..14),
+    # followed by the first k bits of a new segment header of every mode (indicator, count >= 1, data): exercises the
+    # end-of-data handling at the mode read, inside the count read and inside the data read of every parser
+    for sym in ('qr', 'mq', 'rm'):
+        ref = symgen.ref(sym)
+        cfgs = {'qr': [(1, 1), (2, 0), (10, 3)], 'mq': symgen.configs('mq'), 'rm': [(0, 0), (5, 1), (17, 0), (31, 1)]}[sym]
+        if ctx.tier == 'thorough':
+            cfgs = symgen.configs(sym) if sym != 'qr' else [c for c in symgen.configs('qr') if c[0] in (1, 2, 3, 9, 10, 26, 27, 40)]
+        for (ver, level) in cfgs:
+            nbits = ref.capacity_bits(ver, level)
+            mbits = {'qr': 4, 'rm': 3, 'mq': ver - 1}[sym]
+            for k in range(0, 15):
+                segs = symgen.exact_fill(sym, r, ver, level, k)
+                if segs is None:
+                    continue
+                pre = []
+                for (mode, data) in segs:
+                    kind = [kk for kk in symgen.kinds_for(sym, ver) if ref.MODE[kk] == mode][0]
+                    cnt = len(data.decode()) if kind == 'kanji' else len(data)
+                    pre += bits_of(mode, mbits) + bits_of(cnt, ref.count_bits_kind(kind, ver, level)) + body_bits(sym, kind, data)
+                if len(pre) != nbits - k:
+                    continue
+                tails = [[0] * k, [1] * k]
+                for kind in symgen.kinds_for(sym, ver):
+                    cb = ref.count_bits_kind(kind, ver, level)
+                    for c in (1, (1 << cb) - 1):
+                        tails.append((bits_of(ref.MODE[kind], mbits) + bits_of(c, cb) + [r.below(2) for _ in range(16)])[:k])
+                seen = set()
+                for t in tails:
+                    if tuple(t) in seen:
+                        continue
+                    seen.add(tuple(t))
+                    mask = 0 if sym == 'rm' else r.choice(symgen.masks(sym))
+                    dec.append('%s.dec %s' % (sym, refqr.to_image_str(build(sym, ver, level, mask, pre + t))))
+                    meta.append((sym, ver, level, mask))
     out = ctx.go(dec)
     enc, idx = [], []
     for i, o in enumerate(out):
